@@ -210,10 +210,12 @@ class Faults(object):
         self.fail_at = None
         self.err = errno.EIO
         self.log = []
+        self.paths = []
 
-    def tick(self, name):
+    def tick(self, name, path=None):
         self.count += 1
         self.log.append(name)
+        self.paths.append(path)
         return self.fail_at is not None and self.count == self.fail_at
 
     def __enter__(self):
@@ -223,17 +225,17 @@ class Faults(object):
         me = self
 
         def isfile(p):
-            if me.tick('isfile'):
+            if me.tick('isfile', p):
                 return False
             return o_isfile(p)
 
         def getmtime(p):
-            if me.tick('getmtime'):
+            if me.tick('getmtime', p):
                 raise OSError(me.err, os.strerror(me.err), p)
             return o_mtime(p)
 
         def getsize(p):
-            if me.tick('getsize'):
+            if me.tick('getsize', p):
                 raise OSError(me.err, os.strerror(me.err), p)
             return o_size(p)
 
@@ -242,7 +244,7 @@ class Faults(object):
                 s.f = f
 
             def read(s, *a):
-                if not me.streaming and me.tick('read'):
+                if not me.streaming and me.tick('read', getattr(s.f, 'name', None)):
                     raise OSError(me.err, os.strerror(me.err))
                 return s.f.read(*a)
 
@@ -253,7 +255,7 @@ class Faults(object):
                 return getattr(s.f, k)
 
         def fopen(p, *a, **kw):
-            if me.tick('open'):
+            if me.tick('open', p):
                 raise OSError(me.err, os.strerror(me.err), p)
             return FObj(builtins.open(p, *a, **kw))
         self.streaming = False
@@ -315,6 +317,7 @@ def run_faults(spec, ctx):
                         r0 = call_with_faults(app, path, f, hdrs)
                         ncalls = f.count
                         calls = list(f.log)
+                        cpaths = list(f.paths)
                     if r0.exc is not None or r0.status not in (200, 304):
                         try:
                             ctx.mismatch('file-not-served', 'GET %r without any fault answered %s %r' % (path, r0.status, r0.exc),
@@ -325,7 +328,8 @@ def run_faults(spec, ctx):
                     for n in range(1, ncalls + 1):
                         for err in ERRNOS:
                             case = {'segs': segs, 'which': which, 'fault_at': n, 'call': calls[n - 1], 'errno': errno.errorcode[err],
-                                    'ims': None if hdrs is None else hdrs['If-Modified-Since'] == lm}
+                                    'ims': None if hdrs is None else hdrs['If-Modified-Since'] == lm,
+                                    'first_app': bool(cpaths[n - 1] and (os.sep + 'root1' + os.sep) in str(cpaths[n - 1]))}
                             ctx.case(case)
                             try:
                                 fault_case(ctx, setup, app, path, segs, n, err, hdrs, case)
@@ -348,6 +352,13 @@ def fault_case(ctx, setup, app, path, segs, n, err, hdrs, rc):
     what = 'GET %r with %s at filesystem call #%d (%s)' % (path, errno.errorcode[err], n, rc['call'])
     if r.exc is not None:
         ctx.mismatch('fault-raises:' + rc['call'], '%s: %r' % (what, r.exc), rc)
+        return
+    rel = '/'.join(segs)
+    if rc.get('which') == 'stacked' and rc.get('first_app') and rel in FILES2 and rc.get('ims') is None:
+        # the failure hit the first of two overlapping applications: its 403/404 must be non-breaking, so the second one answers
+        if r.status != 200 or r.body != FILES2[rel]:
+            ctx.mismatch('fault-breaks-fallthrough:' + rc['call'], '%s: the second application was not tried (status %s, %d bytes)'
+                         % (what, r.status, len(r.body)), rc)
         return
     if r.status not in (403, 404):
         if r.status in (200, 304):
